@@ -93,6 +93,8 @@ def handleScript (j : Json) : Except String Json := do
   let hyp := scriptHyp lead items
   pure <| Json.mkObj [
     ("script", str script),
+    ("parts", Json.mkObj [("lead", str (render lead)),
+      ("items", .arr (items.map (fun p => Json.arr #[str (render p.1), str (render p.2)])).toArray)]),
     ("hyp", .bool hyp), ("wf", .bool (wf all)), ("level0", .bool (level0 all)), ("why", .str (level0Why all)),
     ("relex", .bool (lex script = all)),
     ("expected", strs (items.map (fun p => render (essence p.1)))),
